@@ -39,7 +39,7 @@ var (
 )
 
 func genPayload(t *rapid.T) []byte {
-	n := rapid.OneOf(rapid.SampledFrom([]int{0, 1, 2, 10, 246, 247, 248, 249, 250, 251, 4095, 7167, 7168}), rapid.IntRange(0, 300)).Draw(t, "plen")
+	n := rapid.OneOf(rapid.SampledFrom([]int{0, 1, 2, 10, 246, 247, 248, 249, 250, 251, 4095, 7167, 7168, 8182, 8183}), rapid.IntRange(0, 300)).Draw(t, "plen")
 	return vf.Payload{N: n, Fill: rapid.Byte().Draw(t, "pfill")}.Bytes()
 }
 
@@ -152,6 +152,9 @@ func genSession(t *rapid.T, o sessOpts) sessCase {
 		if o.refusedRegisters {
 			kinds = append(kinds, "bpub-register", "bpub-register")
 		}
+		if o.clientPublishes || o.brokerPublishes {
+			kinds = append(kinds, "refused-connect")
+		}
 		kind := rapid.SampledFrom(kinds).Draw(t, "kind")
 		if len(inflight) > 0 && kind != "bpub" {
 			inflight = map[uint16]bool{} // the next settling step completes them
@@ -189,6 +192,15 @@ func genSession(t *rapid.T, o sessOpts) sessCase {
 			sc.Steps = append(sc.Steps, gwgen.SetAuto(auto),
 				gwgen.MQ(gwgen.BPublish(rapid.SampledFrom(plainNames).Draw(t, "name"), byte(rapid.IntRange(0, 2).Draw(t, "qos")), 0x100+mid%0x100, []byte(fmt.Sprintf("b-%d", i)), false, false)),
 				gwgen.SetAuto(sc.Auto))
+		case "refused-connect":
+			// a CONNECT which the gateway refuses itself (zero keep-alive, a client ID which is not
+			// an MQTT string), naming another client: the session goes on as the client it was
+			other := rapid.SampledFrom(clientIDPool).Draw(t, "other_cid")
+			cp := gwgen.Connect(other, 0, false, rapid.Bool().Draw(t, "clean"))
+			if rapid.Bool().Draw(t, "bad_cid") {
+				cp = gwgen.Connect(rapid.SampledFrom([]string{"c2\xff", "nul\x00", "\xed\xa0\x80"}).Draw(t, "badcid"), 60, false, true)
+			}
+			sc.Steps = append(sc.Steps, gwgen.SN(cp))
 		case "register-new":
 			nextName++
 			sc.Steps = append(sc.Steps, gwgen.SN(gwgen.Register(fmt.Sprintf("n/%d", nextName), mid)))
@@ -235,6 +247,15 @@ func genSession(t *rapid.T, o sessOpts) sessCase {
 			sc.Steps = append(sc.Steps, gwgen.SN(gwgen.Disconnect(uint16(rapid.SampledFrom([]int{5, 60, 600}).Draw(t, "sleep_s")))))
 			if d := rapid.SampledFrom([]int64{0, 0, 1000, 4000}).Draw(t, "asleep_ms"); d > 0 {
 				sc.Steps = append(sc.Steps, gwgen.Adv(d))
+			}
+			// the broker's answers to what the client asked before it fell asleep arrive meanwhile
+			for k := rapid.IntRange(0, 2).Draw(t, "acks_while_asleep"); k > 0; k-- {
+				if len(subMids) > 0 && rapid.Bool().Draw(t, "suback_asleep") {
+					sc.Steps = append(sc.Steps, gwgen.MQ(mqttref.Pkt{Type: mqttref.SUBACK, MsgID: rapid.SampledFrom(subMids).Draw(t, "submid"), Codes: []byte{rapid.SampledFrom([]byte{0, 1, 2, 0x80}).Draw(t, "code")}}))
+				} else {
+					typ := rapid.SampledFrom([]byte{mqttref.PUBREC, mqttref.PUBCOMP, mqttref.UNSUBACK}).Draw(t, "btype")
+					sc.Steps = append(sc.Steps, gwgen.MQ(mqttref.Pkt{Type: typ, MsgID: rapid.SampledFrom(msgIDPool).Draw(t, "bmid")}))
+				}
 			}
 			sc.Steps = append(sc.Steps, gwgen.SN(gwgen.Connect(c.ClientID, keepalive, false, rapid.Bool().Draw(t, "clean"))))
 		case "sub-reuse":
@@ -479,7 +500,7 @@ func endedBefore(tr *gwsim.Trace, ns int64) bool { return tr.Ended && tr.EndNs <
 func TestC01(t *testing.T) {
 	vf.Check(t, vf.Prop[sessCase]{
 		ID: "C01", Name: "client-publish-forwarded", Bubble: true,
-		Rule: "connected session (auth on/off, predefined map with client-specific and '*' entries over overlapping IDs/names, client ID inside/outside the map) with a history of REGISTER, SUBSCRIBE (plain, wildcard, short, predefined; broker grants/refuses) and broker PUBLISHes on plain names whose REGISTER the client accepts, refuses (return codes 1-3) or never answers, interleaved with client PUBLISH steps over DUP x QoS{-1,0,1,2} x retain x topic-ID type {0,1,2,3}, IDs registered / never handed out / predefined visible, shadowed or absent / short names, payload 0..7168 boundary-biased, message IDs from a small pool. Non-trivial = a publish whose topic ID was introduced by an earlier step of the script (registered ID), or a predefined ID defined for both the client and '*', or a publish that must be refused; distinct by script.",
+		Rule: "connected session (auth on/off, predefined map with client-specific and '*' entries over overlapping IDs/names, client ID inside/outside the map) with a history of REGISTER, SUBSCRIBE (plain, wildcard, short, predefined; broker grants/refuses) and broker PUBLISHes on plain names whose REGISTER the client accepts, refuses (return codes 1-3) or never answers, interleaved with client PUBLISH steps over DUP x QoS{-1,0,1,2} x retain x topic-ID type {0,1,2,3}, IDs registered / never handed out / predefined visible, shadowed or absent / short names, payload 0..8183 (the largest that fits a datagram) boundary-biased, message IDs from a small pool. Non-trivial = a publish whose topic ID was introduced by an earlier step of the script (registered ID), or a predefined ID defined for both the client and '*', or a publish that must be refused; distinct by script.",
 		Assumptions: []string{"IDs in a grey zone (handed out in a SUBACK the broker refused, or in a gateway REGISTER not yet acknowledged) may or may not denote: either outcome passes; an ID from a gateway REGISTER which the client refused denotes nothing",
 			"DUP=1 with QoS 0/-1 and message ID 0 with QoS 1/2 cannot be valid MQTT (C24): forwarding is optional, but if forwarded it must be unchanged"},
 		Gen: func(t *rapid.T) sessCase {
@@ -563,7 +584,7 @@ func TestC01(t *testing.T) {
 func TestC02(t *testing.T) {
 	vf.Check(t, vf.Prop[sessCase]{
 		ID: "C02", Name: "broker-publish-resolvable", Bubble: true,
-		Rule: "connected session with a cooperative scripted client (accepts REGISTERs, completes QoS 1/2), predefined maps with shadowing between the client's entry and '*', and broker PUBLISH steps on short names, predefined names (own, '*'-only, shadowed), registered names, names introduced by SUBACK and brand-new names, names of two characters but three octets (sometimes while the client refuses or ignores the gateway's REGISTER; sometimes two at the same instant, sometimes at the same instant as the client's own REGISTER or SUBSCRIBE of that name, in either order), QoS 0-2, retain, payload <= 7168. Non-trivial = the topic needed a REGISTER, or is predefined with an ID defined for both the client and '*'; distinct by script.",
+		Rule: "connected session with a cooperative scripted client (accepts REGISTERs, completes QoS 1/2), predefined maps with shadowing between the client's entry and '*', and broker PUBLISH steps on short names, predefined names (own, '*'-only, shadowed), registered names, names introduced by SUBACK and brand-new names, names of two characters but three octets (sometimes while the client refuses or ignores the gateway's REGISTER; sometimes two at the same instant, sometimes at the same instant as the client's own REGISTER or SUBSCRIBE of that name, in either order), QoS 0-2, retain, payload 0..8183 (the largest that fits a datagram). Non-trivial = the topic needed a REGISTER, or is predefined with an ID defined for both the client and '*'; distinct by script.",
 		Assumptions: []string{"only deliveries to an active client are judged (sleep is C11)", "the client resolves IDs only from its own knowledge: short decoding, the shared predefined configuration, REGISTERs it accepted, REGACKs/SUBACKs it received",
 			"half of the scripted clients accept every REGISTER; the other half behave like bisquitt's own client (client/net.go): a REGISTER for a name already held under another topic ID is refused with 'invalid topic ID'"},
 		Gen: func(t *rapid.T) sessCase {
@@ -689,8 +710,8 @@ func TestC02(t *testing.T) {
 func TestC03(t *testing.T) {
 	vf.Check(t, vf.Prop[sessCase]{
 		ID: "C03", Name: "control-packets-one-to-one", Bubble: true,
-		Rule: "connected session; SUBSCRIBE over all topic forms x requested QoS 0-2 x message IDs from a small pool; broker SUBACKs as script steps with return code drawn from {0,1,2,0x80} and reserved values {3,0x7f,0xff} (anything above 2 is a refusal) independently of the requested QoS; UNSUBSCRIBE (all forms), PUBREL, PINGREQ from the client; PUBREC/PUBCOMP/UNSUBACK/PINGRESP from the broker with arbitrary IDs; time advances of 1 ms - 9.999 s between steps (RetryDelay 10 s), a message ID used again for a SUBSCRIBE after its SUBACK (granted or refused) with such gaps before and after, and sleep followed by a reconnecting CONNECT. Non-trivial = a SUBACK whose granted QoS differs from the requested one, or a refusal, or a non-string topic form; distinct by script.",
-		Assumptions: []string{"the topic ID of a refused SUBACK is unconstrained", "a SUBACK is judged only if it answers a SUBSCRIBE of this session that is still pending (the latest SUBSCRIBE with that message ID was sent less than RetryDelay ago and is not yet answered)", "a client which comes back from sleep with CONNECT gets one CONNACK and no PINGRESP (it sent no PINGREQ); while it is asleep nothing is judged"},
+		Rule: "connected session; SUBSCRIBE over all topic forms x requested QoS 0-2 x message IDs from a small pool; broker SUBACKs as script steps with return code drawn from {0,1,2,0x80} and reserved values {3,0x7f,0xff} (anything above 2 is a refusal) independently of the requested QoS; UNSUBSCRIBE (all forms), PUBREL, PINGREQ from the client; PUBREC/PUBCOMP/UNSUBACK/PINGRESP from the broker with arbitrary IDs; time advances of 1 ms - 9.999 s between steps (RetryDelay 10 s), a message ID used again for a SUBSCRIBE after its SUBACK (granted or refused) with such gaps before and after, and sleep - during which 0-2 answers of the broker arrive - followed by a reconnecting CONNECT. Non-trivial = a SUBACK whose granted QoS differs from the requested one, or a refusal, or a non-string topic form; distinct by script.",
+		Assumptions: []string{"the topic ID of a refused SUBACK is unconstrained", "a SUBACK is judged only if it answers a SUBSCRIBE of this session that is still pending (the latest SUBSCRIBE with that message ID was sent less than RetryDelay ago and is not yet answered)", "a client which comes back from sleep with CONNECT gets one CONNACK and no PINGRESP (it sent no PINGREQ); an answer of the broker which arrives while the client is asleep is owed at that CONNECT (translated exactly as otherwise) and nothing is sent before"},
 		Gen: func(t *rapid.T) sessCase {
 			return genSession(t, sessOpts{scriptedSuback: true, control: true, maxSteps: 10})
 		},
@@ -708,6 +729,7 @@ func runC03(c sessCase) (r vf.Result) {
 	retry := int64(c.Script.Cfg.RetryDelayMs) * 1e6
 	pending := map[uint16]pend{} // SUBSCRIBE forwarded and not yet answered, by message ID
 	connects, asleep := 0, false
+	wakeGC := map[int]*[]snref.Pkt{} // per waking CONNECT step: what the client got there and is not yet accounted for
 	for i, st := range c.Script.Steps {
 		ev := stepEvents(tr, i)
 		if len(ev) == 0 {
@@ -731,6 +753,41 @@ func runC03(c sessCase) (r vf.Result) {
 					undec = true
 				}
 			}
+		}
+		if asleep && st.K == "mq" && st.MQ != nil {
+			// an answer of the broker for a sleeping client is owed at the wake-up: judged against what
+			// the client gets at the CONNECT which ends the sleep
+			want, ok := map[byte]byte{mqttref.SUBACK: snref.SUBACK, mqttref.PUBREC: snref.PUBREC, mqttref.PUBCOMP: snref.PUBCOMP, mqttref.UNSUBACK: snref.UNSUBACK}[st.MQ.Type]
+			w := -1
+			for j := i + 1; j < len(c.Script.Steps); j++ {
+				if x := c.Script.Steps[j]; x.K == "sn" && x.SN.Type == snref.CONNECT {
+					w = j
+					break
+				}
+			}
+			if !ok || w < 0 || len(stepEvents(tr, w)) == 0 {
+				continue
+			}
+			if wakeGC[w] == nil {
+				wakeGC[w] = &[]snref.Pkt{}
+				for _, x := range stepEvents(tr, w)[1:] {
+					if x.Dir == gwsim.GC && x.SN != nil {
+						*wakeGC[w] = append(*wakeGC[w], *x.SN)
+					}
+				}
+			}
+			if len(gc) > 0 {
+				r.Fail("sent-to-sleeping-client", "the gateway sent %v to a client which is asleep\n%s", gc[0], tr.Dump(25))
+			}
+			gc, undec = nil, false
+			for k, p := range *wakeGC[w] {
+				if p.Type == want && p.MsgID == st.MQ.MsgID {
+					gc = []snref.Pkt{p}
+					*wakeGC[w] = append(append([]snref.Pkt(nil), (*wakeGC[w])[:k]...), (*wakeGC[w])[k+1:]...)
+					break
+				}
+			}
+			r.Label("broker-ack-while-asleep")
 		}
 		one := func(kind string, n int, what string) bool {
 			if n != 1 {
